@@ -288,6 +288,7 @@ func (d *Data) RenumberLabels(v dvid.VersionID, origLabel, newLabel uint64, info
 		return
 	}
 
+	dvid.VerifPoint("labelmap.RenumberLabels", origLabel)
 	supervoxels := mergeIdx.GetSupervoxels()
 	if err = addRenumberToMapping(d, v, mutID, origLabel, newLabel, supervoxels); err != nil {
 		return
@@ -837,6 +838,7 @@ func (d *Data) SplitLabels(v dvid.VersionID, fromLabel uint64, r io.ReadCloser, 
 	// in each block, and either modify header or rewrite the voxel labels.  Activate downres for affected
 	// blocks.
 	downresMut := downres.NewMutation(d, v, mutID)
+	dvid.VerifPoint("labelmap.SplitLabels", fromLabel)
 	if err = d.splitPass2(ctx, downresMut, idx, affectedBlocks, svsplit.Splits, splitmap, blockSplits); err != nil {
 		return
 	}
@@ -1067,6 +1069,7 @@ func (d *Data) SplitSupervoxel(v dvid.VersionID, svlabel, splitlabel, remainlabe
 		}
 		origBlocks[numBlocks] = pb
 		numBlocks++
+		dvid.VerifPoint("labelmap.SplitSupervoxel", svlabel)
 		blockCh <- pb
 	}
 
